@@ -2,6 +2,7 @@
   C08 — key scrambler and keyslot state stay coherent under any key-operation sequence.
 -/
 import Proofs.EngineProofs
+import Proofs.SdKeyFrame
 namespace Pyctr.C08
 open Pyctr Pyctr.Engine
 
@@ -69,5 +70,13 @@ example : keygen3ds ((1 <<< 128) - 1) 0 = toBE 16 (scr3ds (BitVec.ofNat 128 ((1 
 example : let ge := [KeyOp.setX 0x2C 5 true, .setY 0x2C 9 true, .setNormal 0x30 [1], .setX 3 7 false].foldl gstep
             ⟨Engine.create false none, fun _ => .free⟩
     (ge.e.normal 0x2C = some (keygen3ds 5 9)) ∧ ge.e.normal 0x30 = some [1] := by decide
+
+/-- **compound key-setting operations stay in their slots**: `setup_sd_key` (movable.sed KeyY into SD 0x34, CMAC-SD/NAND 0x30,
+    DSiWare export 0x3A, each with its normal key regenerated) leaves KeyX, KeyY and the normal key of every other slot - a
+    directly set normal key, a slot whose halves were set without updating - exactly as they were -/
+theorem C08_sd_key_frame (H : Bytes → Bytes) (e e' : Engine) (data id0 : Bytes) (h : Sd.setupSdKey H e data = .ok (e', id0))
+    (s : Nat) (h1 : s ≠ 0x34) (h2 : s ≠ 0x30) (h3 : s ≠ 0x3A) :
+    e'.normal s = e.normal s ∧ e'.keyX s = e.keyX s ∧ e'.keyY s = e.keyY s ∧ e'.dev = e.dev :=
+  sd_key_frame H e e' data id0 h s h1 h2 h3
 
 end Pyctr.C08
